@@ -216,6 +216,7 @@ KIND2PROP = {
     "gadget": "C13", "lazy_new": "C13", "lazy_op": "C13", "lazy_end": "C13",
     "hint": "C14",
     "shape": "C15", "pubinput": "C15", "groth16": "C15",
+    "blsgen": "C16", "blsmul": "C16", "blspair": "C16",
 }
 
 
@@ -223,7 +224,7 @@ def signature(ev):
     """the call site of an event: kind + form / entry / predicate / constructor name (+ op, + suite-specific tag)"""
     return (ev.get("k"), ev.get("op", ""), ev.get("form", ""), ev.get("entry", ""), ev.get("pred", ""),
             ev.get("name", ""), ev.get("ty", ""), ev.get("impl", ""), ev.get("field", ""), ev.get("tag", ""),
-            ev.get("g", ""), ev.get("mode", ""), ev.get("circuit", ""),
+            ev.get("g", ""), ev.get("mode", ""), ev.get("circuit", ""), ev.get("grp", ""),
             # hinted events are identified by input class and hint (one report per distinct failing hint)
             ev.get("class", "") if ev.get("k") == "hint" else "", ev.get("hflag", ""),
             tuple(ev.get("hy", [])) if ev.get("k") == "hint" else ())
@@ -406,14 +407,14 @@ class Check:
 
     # -- trace validation
     def trace(self, which, suite, n, arg="", module="SessionTrace.tla", cfg="cfg/SessionTrace.cfg", kinds=None,
-              sd=None):
+              sd=None, nchunks=NCPU):
         lines = record(which, suite, n, arg, sd)
-        return self.validate_lines(lines, "%s_%s" % (which, suite), module, cfg, kinds, which)
+        return self.validate_lines(lines, "%s_%s" % (which, suite), module, cfg, kinds, which, nchunks)
 
     def validate_lines(self, lines, tag, module="SessionTrace.tla", cfg="cfg/SessionTrace.cfg", kinds=None,
-                       which=""):
+                       which="", nchunks=NCPU):
         t0 = time.time()
-        res = validate(lines, module, cfg, "%s_%s" % (self.prop, tag))
+        res = validate(lines, module, cfg, "%s_%s" % (self.prop, tag), nchunks=nchunks)
         self.traces += res["chunks"]
         self.events += res["events"]
         self.states += res["states"]
